@@ -328,10 +328,14 @@ def writer_total(V):
     from ethosu.vela.data_type import DataType
 
     rank = V.choice("rank", [0, 1, 2])
-    dname = V.choice("dtype", ["int8", "uint8", "int16", "int32", "int64", "float32", "bool"])
+    # every element type the reader can hand over with constant data (its two type tables), not a hand-picked list
+    from ethosu.vela.tflite_mapping import datatype_map, datatype_map_numpy
+
+    table = {str(datatype_map[c]): (datatype_map[c], datatype_map_numpy[c]) for c in sorted(datatype_map) if datatype_map_numpy.get(c) is not None
+             and str(datatype_map[c]) != "string"}
+    dname = V.choice("dtype", sorted(table))
     quantised = bool(V.bool("has_quantisation"))
-    dt = getattr(DataType, dname)
-    npdt = {"int8": np.int8, "uint8": np.uint8, "int16": np.int16, "int32": np.int32, "int64": np.int64, "float32": np.float32, "bool": np.bool_}[dname]
+    dt, npdt = table[dname]
     shape = [3] * rank
     t = Tensor(shape, dt, "c")
     t.values = np.ones(shape, dtype=npdt) if rank else np.array(1, dtype=npdt)
